@@ -236,7 +236,7 @@ pub assume_specification[ U256::as_u16 ](a: U256) -> (r: u16)
 pub assume_specification[ U256::as_u128 ](a: U256) -> (r: u128)
     ensures r as nat == u(a) % H();
 pub assume_specification[ U256::checked_add ](a: U256, b: U256) -> (r: Option<U256>)
-    ensures r == (if u(a) + u(b) < M() { Some(choose_u(u(a) + u(b))) } else { None });
+    ensures (r is Some) == (u(a) + u(b) < M()), r matches Some(q) ==> u(q) == u(a) + u(b);
 pub assume_specification[ U256::saturating_add ](a: U256, b: U256) -> (r: U256)
     ensures u(r) == (if u(a) + u(b) < M() { u(a) + u(b) } else { (M() - 1) as nat });
 pub assume_specification[ <u32 as core::convert::TryFrom<U256>>::try_from ](a: U256) -> (r: Result<u32, <u32 as core::convert::TryFrom<U256>>::Error>)
@@ -275,13 +275,13 @@ pub assume_specification[ I256::wrapping_div ](a: I256, b: I256) -> (r: I256)
     requires s(b) != 0,
     ensures s(r) == to_signed(to_unsigned(tdiv(s(a), s(b))));    // MIN / -1 wraps to MIN
 pub assume_specification[ I256::checked_div ](a: I256, b: I256) -> (r: Option<I256>)
-    ensures r == (if s(b) == 0 || (s(a) == -(M() as int) / 2 && s(b) == -1) { None::<I256> } else { Some(choose_s(tdiv(s(a), s(b)))) });   // None on zero divisor AND on MIN / -1
+    ensures (r is None) == (s(b) == 0 || (s(a) == -(M() as int) / 2 && s(b) == -1)), r matches Some(q) ==> s(q) == tdiv(s(a), s(b));   // None on zero divisor AND on MIN / -1
 pub assume_specification[ I256::checked_rem ](a: I256, b: I256) -> (r: Option<I256>)
-    ensures r == (if s(b) == 0 || (s(a) == -(M() as int) / 2 && s(b) == -1) { None::<I256> } else { Some(choose_s(trem(s(a), s(b)))) });
+    ensures (r is None) == (s(b) == 0 || (s(a) == -(M() as int) / 2 && s(b) == -1)), r matches Some(q) ==> s(q) == trem(s(a), s(b));
 pub assume_specification[ U256::checked_div ](a: U256, b: U256) -> (r: Option<U256>)
-    ensures r == (if u(b) == 0 { None::<U256> } else { Some(choose_u(u(a) / u(b))) });
+    ensures (r is None) == (u(b) == 0), r matches Some(q) ==> u(q) == u(a) / u(b);
 pub assume_specification[ U256::checked_rem ](a: U256, b: U256) -> (r: Option<U256>)
-    ensures r == (if u(b) == 0 { None::<U256> } else { Some(choose_u(u(a) % u(b))) });
+    ensures (r is None) == (u(b) == 0), r matches Some(q) ==> u(q) == u(a) % u(b);
 pub assume_specification[ I256::wrapping_rem ](a: I256, b: I256) -> (r: I256)
     requires s(b) != 0,
     ensures s(r) == trem(s(a), s(b));
@@ -385,6 +385,12 @@ pub assume_specification[ <U256 as core::convert::From<u32>>::from ](v: u32) -> 
     ensures u(r) == v as nat;
 pub assume_specification[ <U256 as core::convert::From<u128>>::from ](v: u128) -> (r: U256)
     ensures u(r) == v as nat;
+pub assume_specification[ <U256 as core::convert::From<u16>>::from ](v: u16) -> (r: U256)
+    ensures u(r) == v as nat;
+pub assume_specification[ <U256 as core::convert::From<u64>>::from ](v: u64) -> (r: U256)
+    ensures u(r) == v as nat;
+pub assume_specification[ <I256 as core::convert::From<i128>>::from ](v: i128) -> (r: I256)
+    ensures s(r) == v as int;
 pub uninterp spec fn shr32_val(a: U256, b: u32) -> U256;
 pub broadcast axiom fn shr32_val_def(a: U256, b: u32) requires b < 256
     ensures u(#[trigger] shr32_val(a, b)) == u(a) / vstd::arithmetic::power2::pow2(b as nat);
